@@ -166,4 +166,18 @@ def zipLongest : List Int → List Int → List (Int × Int)
 def transposeR (m : List (List Int)) : List (List Int) :=
   (List.range (m.foldl (fun k r => max k r.length) 0)).map (fun i => m.filterMap (fun r => r[i]?))
 
+/-- `max_by(vec, cmp=less_than)`: `foldl(lambda a, b: b if a < b else a, vec)` -/
+def maxFold : List Int → Option Int
+  | [] => none
+  | x :: xs => some (xs.foldl (fun a b => if a < b then b else a) x)
+
+/-- `min_by`: `foldl(lambda a, b: b if b < a else a, vec)` -/
+def minFold : List Int → Option Int
+  | [] => none
+  | x :: xs => some (xs.foldl (fun a b => if b < a then b else a) x)
+
+/-- `G` / `g`: deep flatten first; the empty list gives the empty list (here: `none`) -/
+def vyMax (t : T) : Option Int := maxFold (flattenT t)
+def vyMin (t : T) : Option Int := minFold (flattenT t)
+
 end Ls
